@@ -1,17 +1,12 @@
 import HqModel.Lemmas.SysOk
-import Driver.CoreMain
+import Driver.CoreLib
 /-!
-PROTOTYPE of the link check of the composed model (notes/sys.md, section 8). Not part of the build.
-
-  hqv job  gen --seed S --shard 0/1 --cases N --tier T > job.trace
-  hqv core gen --seed S --shard 0/1 --cases N --tier T > core.trace      (same arguments: same runs)
-  python3 notes/sys/merge.py job.trace core.trace > sys.trace            (one `S …` line per world action)
-  edit the path in the `#eval` at the end of this file, then
-  cd lean && lake build HqModel.Lemmas.SysOk Driver.CoreMain && lake env lean ../notes/sys/Replay.lean
-
-Per action it evaluates `decide (OpOk s op)`, runs `Sys.step`, compares the delivered callbacks with the job view's
-`op cb.*` lines of the same `act` (the `X …` suffix of the merged line; `?` = more sub-operations follow) and checks the
-registry equality of `sys_registry` on the new state. Expected last line: all counters except cases/steps are 0.
+Driver of the COMPOSED model `Sys` (job layer M4 + core M1, `HqModel/Sys/Model.lean`): the link check of notes/sys.md §8.
+Input (stdin): the merged world-action trace built by checks/sys_link.py from the job view and the core view of the same
+cases: `C <idx> reserve=R max=M` / `S <action…> X <expected callbacks | - | ?>` / `E`.
+Per action it evaluates the side conditions `Sys.OpOk` of the `sys_*` theorems, runs `Sys.step`, compares the callbacks the
+composed model delivers with the `cb.*` ops the real job layer received, and evaluates the conclusion of `sys_registry` on
+the new state. Output: a trace (`case` / `op` / `mon FAIL sys.… ` / `end`).
 -/
 open HqModel HqModel.Sys
 
@@ -79,68 +74,58 @@ def showCb : Core.Cb → String
   | .workerNew w => s!"wnew:{w}"
   | .workerLost w _ _ => s!"wlost:{w}"
 
-structure Stats where
-  steps : Nat := 0
-  stops : Nat := 0
-  badOk : Nat := 0
-  cbMismatch : Nat := 0
-  badParse : Nat := 0
-  regMismatch : Nat := 0
-  cases : Nat := 0
 
 def tidLt (a b : TaskId) : Bool := a.1 < b.1 || (a.1 == b.1 && a.2 < b.2)
 
-partial def loop (h : IO.FS.Stream) (s : State) (dead : Bool) (st : Stats) (pendingCbs : List String) : IO Stats := do
+partial def loop (h : IO.FS.Stream) (s : State) (dead : Bool) (pendingCbs : List String) : IO Unit := do
   let line ← h.getLine
-  if line.isEmpty then return st
+  if line.isEmpty then return ()
   let toks := (line.trimAscii.toString.splitOn " ").filter (· ≠ "")
   match toks with
-  | "C" :: _ :: params =>
+  | "C" :: idx :: params =>
     let get (key : String) (d : Nat) : Nat :=
       match params.findSome? (fun t => CoreDriver.dropPrefix (key ++ "=") t) with
       | some v => v.toNat?.getD d
       | none => d
-    loop h (initState (get "reserve" 1) (get "max" 1)) false { st with cases := st.cases + 1 } []
-  | ["E"] => loop h s dead st []
+    IO.println s!"case {idx} 0 sys {" ".intercalate params}"
+    loop h (initState (get "reserve" 1) (get "max" 1)) false []
+  | ["E"] =>
+    IO.println "end"
+    loop h s dead []
   | "S" :: rest =>
-    if dead then loop h s dead st [] else
-    -- split off the expected callbacks
+    if dead then loop h s dead [] else
     let body := rest.takeWhile (· ≠ "X")
     let exp := (rest.dropWhile (· ≠ "X")).drop 1 |>.headD "-"
+    IO.println s!"op {" ".intercalate body}"
     match parseOp s body with
     | none =>
-      IO.println s!"BADPARSE {line.trimAscii}"
-      loop h s true { st with badParse := st.badParse + 1 } []
+      IO.println "mon FAIL sys.parse bad-action the merged action could not be parsed"
+      loop h s true []
     | some op =>
-      let ok := decide (OpOk s op)
-      let st := if ok then st else { st with badOk := st.badOk + 1 }
-      if !ok then IO.println s!"OPOK-FALSE case-line: {line.trimAscii.toString.take 200}"
+      if !decide (OpOk s op) then
+        IO.println "mon FAIL sys.hyp opok-false a side condition of the sys_* theorems (Sys.OpOk) is false on the pre-state of this real action"
       match step s op with
       | .error e =>
-        IO.println s!"STOP {repr e} at: {line.trimAscii.toString.take 300}"
-        loop h s true { st with steps := st.steps + 1, stops := st.stops + 1 } []
+        let sig := match e with
+          | .job _ => "stop-job" | .core _ => "stop-core" | .badRets => "bad-rets" | .badSubmit => "bad-submit" | .badCancel => "bad-cancel"
+        IO.println s!"mon FAIL sys.step {sig} the composed model stops on an action the real server performed without panic: {repr e}"
+        loop h s true []
       | .ok (s', o) =>
         let cbs := pendingCbs ++ o.core.cbs.map showCb
-        let (mism, pend) :=
-          if exp = "?" then (false, cbs)
-          else
-            let got := if cbs.isEmpty then "-" else ",".intercalate cbs
-            (got ≠ exp, [])
-        if mism then IO.println s!"CB-MISMATCH got={cbs} exp={exp} at: {line.trimAscii.toString.take 200}"
-        -- registry equality (theorem sys_registry): evaluate on the state
+        let pend ← if exp = "?" then pure cbs else do
+          let got := if cbs.isEmpty then "-" else ",".intercalate cbs
+          if got ≠ exp then
+            IO.println s!"mon FAIL sys.callbacks callbacks-differ the composed model delivers [{got}] to the job layer, the real job layer received [{exp}]"
+          pure []
         let ids := (s'.core.tasks.map (·.id))
         let reg := ids.all s'.job.sent.contains && s'.job.sent.all ids.contains
-        if !reg then IO.println s!"REGISTRY-MISMATCH at: {line.trimAscii.toString.take 200}"
-        let st := { st with steps := st.steps + 1, cbMismatch := st.cbMismatch + (if mism then 1 else 0),
-                            regMismatch := st.regMismatch + (if reg then 0 else 1) }
-        loop h s' false st pend
-  | _ => loop h s dead st pendingCbs
-
-def runFile (path : String) : IO Unit := do
-  let h ← IO.FS.Handle.mk path .read
-  let st ← loop (IO.FS.Stream.ofHandle h) {} false {} []
-  IO.println s!"cases={st.cases} steps={st.steps} stops={st.stops} opok-false={st.badOk} cb-mismatch={st.cbMismatch} registry-mismatch={st.regMismatch} bad-parse={st.badParse}"
+        if !reg then
+          IO.println "mon FAIL sys.registry registry-differs in the composed state the core task map and the job layer's set of unfinished sent tasks differ (conclusion of sys_registry)"
+        loop h s' false pend
+  | _ => loop h s dead pendingCbs
 
 end Replay
 
-#eval Replay.runFile "/tmp/sysw/replay/sys3.trace"
+def main : IO Unit := do
+  let stdin ← IO.getStdin
+  Replay.loop stdin {} false []
